@@ -28,7 +28,7 @@ fixtab = "\n".join(f"| `{l.split(' ',1)[0]}` | {l.split(' ',1)[1]} |" for l in f
 tpl = re.sub(r"\| commit \| what \|\n\|---\|---\|\n(?:\|.*\|\n)+", "| commit | what |\n|---|---|\n" + fixtab + "\n", tpl)
 
 rows = []
-missed1 = []; nfi1 = []; missed3 = []; nfi3 = []
+missed1 = []; nfi1 = []; missed3 = []; nfi3 = []; missed4 = []; nfi4 = []
 for f in sorted(glob.glob(V + '/seeded/*/meta.json')):
     m = json.load(open(f))
     ch = re.sub(r'^(Change|C\d\d change|#+)\s*\d*\s*[-:–—.]?\s*', '', m['change']).strip()
@@ -42,7 +42,10 @@ for f in sorted(glob.glob(V + '/seeded/*/meta.json')):
         first = 'caught'
     else:
         first = 'caught' if fr['concrete_failing_input_found'] else ('caught, no input' if fr['detected'] else 'missed')
-    if m.get('round') == 3:
+    if m.get('round') == 4:
+        if first == 'missed': missed4.append(m['id'])
+        if first == 'caught, no input': nfi4.append(m['id'])
+    elif m.get('round') == 3:
         if first == 'missed': missed3.append(m['id'])
         if first == 'caught, no input': nfi3.append(m['id'])
     else:
@@ -58,11 +61,11 @@ for f in sorted(glob.glob(V + '/seeded/*/meta.json')):
         stren.append(f"* **{m['id']}** – {sw}")
 seeded = f'''### 13.7 Seeded breaking changes and which checks catch them
 
-One hundred and twenty changes, six per property, in three rounds.  Each was written by a fresh sub-agent that saw
+One hundred and sixty changes, eight per property, in four rounds.  Each was written by a fresh sub-agent that saw
 only the text of one property and a scratch worktree (nothing from /verif), was asked for a
 plausible maintainer edit that needs something specific to manifest, and was confirmed by hand in
 a scratch worktree: applies to HEAD, builds, the whole existing suite passes, the demonstration
-fails with the change and passes without it (the demonstrations of C15-4 and C15-6 need `-race`).  They are kept
+fails with the change and passes without it (the demonstrations of C15-4, C15-6 and C15-8 need `-race`).  They are kept
 under `/verif/seeded/<id>/` (`patch.diff`, `demo_test.go`, `notes.md`, `meta.json`).  Each was
 applied to /repo (`git -C /repo apply`), the quick check of its property run, and the tree
 restored (`git -C /repo checkout -- .`).
@@ -88,8 +91,25 @@ rendered nothing yet, their baseline comes from a second Template loaded from th
 calls are repeated after the concurrent phase; (3) history families come in two shapes, with and
 without the operation issued first; (4) histories can change the file tree between loads; (5) the
 cover table of C19 comes from the real `Position.Contains`, also on lines longer than 65535 bytes.
-Now all one hundred and twenty are reported by the quick check of their own property with a
-concrete failing input as replay.
+
+Round 4 (ids `-7`, `-8`) told the sub-agents what kind of harness guards the property (a randomised
+differential harness over structured templates and data of moderate size, repeated and concurrent
+renders, short histories) and asked them to aim *outside* it.  They did: {40 - len(missed4) - len(nfi4)} of 40 were caught at
+once with a concrete failing input, {len(nfi4)} only as a broken obligation ({', '.join(nfi4)}) and {len(missed4)} were missed.
+The carriers were: tables keyed by a 32-bit checksum (three agents independently), thresholds
+(twelve nested scopes, 33 levels of `@dump`, 128 files, 1000 keys, five `@elseif` branches), names
+and bytes that collide with something internal (`global`, `~` inside a name, `%` in a path, a
+keyword followed by a digit, 0x85 / 0xA0, a lone carriage return, a byte order mark), letters whose
+case forms change length, aliasing pointers in the data, a nil function value, loops without an init
+clause, loading while strings are evaluated, and a `Content-Length` that is only wrong on a real
+connection.  Each miss was closed by a family that covers the *class* (see the list below:
+`checksum_twins` from a birthday search over seven checksums, `deep_scopes`, `deep_values`,
+`big_containers`, `big_tree_several_faults`, `case_mapping_runes` over every cased letter with an
+unusual mapping, `reserved_looking_keys`, `percent_in_paths`, `degenerate_names`, `cut_numbers`,
+`directive_other_case`, the body "as a client receives it", the request kind `loadconc`, …), and
+where the model had no word for the input it got one (nil function values, a fourth array
+function, aliasing data values, relative `EvaluateFile`, `WRITE`/`RM`).  Now all one hundred and
+sixty are reported by the quick check of their own property with a concrete failing input as replay.
 
 What was added for the ones not caught (or caught without an input) at first:
 
